@@ -273,6 +273,15 @@ func marshalWrapperOK(mc *msgCode) (bool, string) {
 				if a, ok := c.Args[1].(*ast.Ident); ok && info.Uses[a] == sizeVar && sizeVar != nil {
 					bufVar = obj
 				}
+				// make([]byte, m.Size()): the size is taken in the same expression
+				if sc, ok := ast.Unparen(c.Args[1]).(*ast.CallExpr); ok && len(sc.Args) == 0 {
+					if se, ok := sc.Fun.(*ast.SelectorExpr); ok && se.Sel.Name == "Size" {
+						if rid, ok := se.X.(*ast.Ident); ok && info.Uses[rid] == recvObj(info, mc.marshal) {
+							bufVar = obj
+							sizeVar = obj
+						}
+					}
+				}
 			}
 		}
 		return true
